@@ -4,6 +4,7 @@
 # One scratch worktree of /repo's HEAD per mutant (outside /repo and /verif, removed afterwards);
 # /repo itself is never modified. Evidence/replay of these runs go to scratch directories.
 cd "$(dirname "$0")/.." || exit 2
+export V=$(pwd)
 OUT=${1:-seeded/MATRIX.tsv}; shift
 export CHECKS=${*:-C01 C02 C03 C04 C05 C06 C07 C08 C09 C10 C11 C12 C13 C14 C15 C16 C17 C18 C19}
 PAR=${PAR:-4}
@@ -16,10 +17,10 @@ m=json.load(open(sys.argv[1]))
 ok=m.get("applies") and m.get("compiles") and m.get("existing_suite_passes_with_change") and m.get("demo_fails_with_change") and m.get("demo_passes_without_change")
 sys.exit(0 if ok else 1)
 PY
-  SW=/tmp/seedmx.$id.$$; SC=/verif/.work/mx.$id.$$
+  SW=/tmp/seedmx.$id.$$; SC=$V/.work/mx.$id.$$
   git -C /repo worktree add --detach "$SW" HEAD >/dev/null 2>&1 || { echo "$id: cannot create worktree" >&2; exit 0; }
-  trap 'git -C /repo worktree remove --force "$SW" >/dev/null 2>&1; rm -rf "$SC" /verif/.work/bin/kvcheck*seedmx.$id.$$ /verif/.work/mod/*seedmx.$id.$$* /verif/.work/*.mx$id.$$*' EXIT
-  ( cd "$SW" && { git apply "/verif/$d/patch.diff" 2>/dev/null || { git apply -3 "/verif/$d/patch.diff" >/dev/null 2>&1 && git reset -q; }; } ) || { printf '%s\t*\tnoapply\n' "$id"; exit 0; }
+  trap 'git -C /repo worktree remove --force "$SW" >/dev/null 2>&1; rm -rf "$SC" $V/.work/bin/kvcheck*seedmx.$id.$$ $V/.work/mod/*seedmx.$id.$$* $V/.work/*.mx$id.$$*' EXIT
+  ( cd "$SW" && { git apply "$V/$d/patch.diff" 2>/dev/null || { git apply -3 "$V/$d/patch.diff" >/dev/null 2>&1 && git reset -q; }; } ) || { printf '%s\t*\tnoapply\n' "$id"; exit 0; }
   mkdir -p "$SC"
   for c in $CHECKS; do
     VERIF_REPO="$SW" VERIF_WORK_SUFFIX=".mx$id.$$" VERIF_EVIDENCE_DIR="$SC" VERIF_REPLAY_DIR="$SC" ./run.sh "$c" quick > "$SC/out" 2>&1
